@@ -868,7 +868,21 @@ def directed_cases():
             "w": {"on": {"BACK": "#m.p.h", "A": {"actions": ["inc:n"]}}},
             "fin": {"type": "final", "output": {"answer": 42}}},
     }
-    return [
+    # completion output of every JSON shape, falsy values included (0, false, "", [], {}), declared on the final
+    # state or on the machine: the restored interpreter and the re-snapshot must carry exactly the same value
+    outs = []
+    for i, val in enumerate([0, False, "", [], {}, 1, True, "x", [0], {"k": None}, None]):
+        for where in ("state", "machine"):
+            mm = {"id": "m", "initial": "a", "context": {"n": 0},
+                  "states": {"a": {"on": {"GO": "b", "END": "fin"}}, "b": {"on": {"GO": "a", "END": "fin"}},
+                             "fin": {"type": "final"}}}
+            if where == "state":
+                mm["states"]["fin"]["output"] = val
+            else:
+                mm["output"] = val
+            outs.append({"id": f"directed-output-value-{where}-{i}", "machine": mm, "guards": {}, "events": ["GO", "END", "GO"],
+                         "expect_out": val})
+    return outs + [
         {"id": "directed-nested-context", "machine": nested, "guards": {}, "logic": "nested",
          "events": ["STAY", "GO", "GO", "STAY", "GO", "END", "GO"]},
         {"id": "directed-output-history", "machine": outp, "guards": {},
@@ -891,7 +905,11 @@ def c12_directed(tier, seed):
                 continue
             nontrivial += 1
             final = res["base"][-1]
-            if c["id"] != "directed-nested-context" and not (final["S"] == "done" and final["out"] == {"answer": 42}):
+            if "expect_out" in c:
+                if not (final["S"] == "done" and final["out"] == c["expect_out"] and type(final["out"]) is type(c["expect_out"])):
+                    fails.append({"kind": "directed-case-broken", "flavor": flavor, "case": c,
+                                  "detail": f"expected completion with output {c['expect_out']!r}, got {final['S']} {final['out']!r}"})
+            elif c["id"] != "directed-nested-context" and not (final["S"] == "done" and final["out"] == {"answer": 42}):
                 fails.append({"kind": "directed-case-broken", "flavor": flavor, "case": c, "detail": f"expected completion with output, got {final['S']} {final['out']}"})
             if c["id"] == "directed-nested-context" and not (final["S"] == "done" and final["out"] == {"result": [1, {"k": "v"}]}):
                 fails.append({"kind": "directed-case-broken", "flavor": flavor, "case": c, "detail": f"expected completion with output, got {final['S']} {final['out']} ctx {final['ctx']}"})
